@@ -130,11 +130,17 @@ def expand(ctx: Ctx, pid: str, fam: list[dict], rng: random.Random) -> tuple[lis
                  + pick(lambda d: d["max_failures"] == 0 and all(b in ("ok", "badif") for b in d["ops"]), nb // 4)
                  + pick(lambda d: "stateful" in d["phases"], nb // 6 + 1))
         recipe = {"stop": 6 if quick else 25, "ctrlc": 0, "faults": 0}
+        # rate limit: a few runs long enough to overflow one window, several worker counts
+        rate_bases = [{"ops": ["ok", "ok", "ok"], "links": "none", "phases": ["coverage", "fuzzing"], "workers": w, "max_failures": 0,
+                       "cof": False, "unique": False, "rate": r} for w, r in ([(1, 15), (3, 15)] if quick else [(1, 10), (2, 20), (3, 15), (4, 30), (4, 10)])]
+        bases = bases + rate_bases
     plain = []
     for i, b in enumerate(bases):
         d = _norm(b)
         d["seed"] = ctx.seed * 1000 + i + 1
         d["max_examples"] = rng.choice([1, 2, 3, 5]) if pid == "C12" else 3
+        if d.get("rate"):
+            d["max_examples"] = 8
         d["step_count"] = rng.choice([2, 3, 6]) if pid == "C12" else 3
         d["params"] = rng.random() < 0.5
         plain.append(d)
@@ -149,6 +155,8 @@ def variants(base: dict, ref: dict, recipe: dict, rng: random.Random) -> list[di
     out = []
     nev = n_events(ref)
     stops = list(range(1, nev))  # stopping after the last event is a no-op
+    if base.get("rate"):
+        return []
     if recipe["stop"] != "all":
         stops = common.sample(rng, stops, recipe["stop"])
     for k in stops:
